@@ -258,13 +258,20 @@ func (g *pgen) value(v float64, depth int) {
 		g.aop(reft2.OpSqrt)
 		g.mark("sqrt")
 		return
-	case 7: // v dup drop
+	case 7: // v dup exch drop (the copy survives), or a dup add
 		if !g.room(2) {
 			break
 		}
-		g.value(v, depth+1)
-		g.aop(reft2.OpDup)
-		g.aop(reft2.OpDrop)
+		if h := v / 2; inRange(h) && g.chance(50) {
+			g.value(h, depth+1)
+			g.aop(reft2.OpDup)
+			g.aop(reft2.OpAdd)
+		} else {
+			g.value(v, depth+1)
+			g.aop(reft2.OpDup)
+			g.aop(reft2.OpExch)
+			g.aop(reft2.OpDrop)
+		}
 		g.mark("dup")
 		return
 	case 8: // junk v exch drop
@@ -297,14 +304,22 @@ func (g *pgen) value(v float64, depth int) {
 		g.mark("index")
 		g.mark("roll")
 		return
-	case 10: // v (negative) index drop: duplicates the top
+	case 10: // a negative index duplicates the top: the copy is used
 		if !g.room(3) {
 			break
 		}
-		g.value(v, depth+1)
-		g.lit(float64(-g.intn(1, 5, "ni")))
-		g.aop(reft2.OpIndex)
-		g.aop(reft2.OpDrop)
+		if h := v / 2; inRange(h) && g.chance(50) {
+			g.value(h, depth+1)
+			g.lit(float64(-g.intn(1, 5, "ni")))
+			g.aop(reft2.OpIndex)
+			g.aop(reft2.OpAdd)
+		} else {
+			g.value(v, depth+1)
+			g.lit(float64(-g.intn(1, 5, "ni")))
+			g.aop(reft2.OpIndex)
+			g.aop(reft2.OpExch)
+			g.aop(reft2.OpDrop)
+		}
 		g.mark("index-neg")
 		return
 	case 11: // v i put i get
